@@ -126,3 +126,38 @@ package keygen
 //@   loop 1 invariant forall k in 0..kgN(round) :: ((k < $iter && k != i) ==> sent(chs[k]) == 1) && ((k >= $iter || k == i) ==> sent(chs[k]) == 0)
 //@   loop 2 invariant round.started && len(chs) == kgN(round) && sent(round.end) == old(sent(round.end)) && Ps == round.Parameters.parties.partyIDs && i == kgI(round) && (forall k in 0..$iter :: (k == i ==> round.ok[k]))
 //@   loop 3 invariant round.started && fresh(culprits) && sent(round.end) == old(sent(round.end)) && Ps == round.Parameters.parties.partyIDs && i == kgI(round) && round.ok[i] && (forall c in 0..len(culprits) :: (exists j in 0..kgN(round) :: (j != i && culprits[c] == Ps[j]))) && (len(culprits) == 0 ==> (forall k in 0..$iter :: round.ok[k]))
+
+// ----- round_3.go -----
+//@ func (*KGRound2Message1).UnmarshalShare
+//@   props C06 C15
+//@   requires m != nil
+//@   ensures result != nil && fresh(result) && val(result) >= 0
+//@ func (*KGRound2Message1).UnmarshalFacProof
+//@   props C06 C10
+//@   requires m != nil
+//@   ensures result1 != nil ==> result0 == nil
+//@   ensures result1 == nil ==> (result0 != nil && fresh(result0) && wfFac(result0) && nnFac(result0))
+//@ func (*KGRound2Message2).UnmarshalDeCommitment
+//@   props C06 C16
+//@   requires m != nil
+//@   ensures fresh(result) && len(result) == len(m.DeCommitment) && (forall k in 0..len(result) :: (result[k] != nil && val(result[k]) >= 0))
+//@ func (*KGRound2Message2).UnmarshalModProof
+//@   props C06 C10
+//@   requires m != nil
+//@   ensures result1 != nil ==> result0 == nil
+//@   ensures result1 == nil ==> (result0 != nil && fresh(result0) && (forall k in 0..80 :: (result0.X[k] != nil && result0.Z[k] != nil && val(result0.X[k]) >= 0 && val(result0.Z[k]) >= 0)))
+
+//@ define kg2m1slot(m) = (!isnil(m) && istype(msgcontent(m), "*ecdsa/keygen.KGRound2Message1") && cast(msgcontent(m), "*ecdsa/keygen.KGRound2Message1") != nil)
+//@ define kg2m2slot(m) = (!isnil(m) && istype(msgcontent(m), "*ecdsa/keygen.KGRound2Message2") && cast(msgcontent(m), "*ecdsa/keygen.KGRound2Message2") != nil && len(cast(msgcontent(m), "*ecdsa/keygen.KGRound2Message2").DeCommitment) <= 8192)
+//@ define kgRow(round, s) = (len(s) == round.Parameters.threshold + 1 && (forall c in 0..len(s) :: (validPoint(s[c]) && s[c].curve == round.Parameters.ec)))
+
+//@ func (*round3).Start$1
+//@   props C06 C05 C03 C15
+//@   requires round != nil && round.round2 != nil && round.round2.round1 != nil && round.round2.round1.base != nil
+//@   requires ecKgWF(round)
+//@   requires 0 <= j && j < kgN(round) && j != kgI(round) && ch != nil && len(ContextJ) <= 1048576 && Ps == round.Parameters.parties.partyIDs
+//@   requires kg2m1slot(round.temp.kgRound2Message1s[j]) && kg2m2slot(round.temp.kgRound2Message2s[j]) && round.save.PaillierPKs[j] != nil
+//@   modifies sent(ch), allfield("crypto.ECPoint", "curve")
+//@   ensures sent(ch) == old(sent(ch)) + 1
+//@   ensures [C03.a-result-without-error-carries-a-verified-commitment-row] isnil(sentf(ch, old(sent(ch)), "unWrappedErr")) ==> (kgRow(round, sentf(ch, old(sent(ch)), "pjVs")) && fresh(sentf(ch, old(sent(ch)), "pjVs")))
+//@   ensures [C20.curve-field-rewritten-with-same-value] fieldheap("crypto.ECPoint", "curve") == old(fieldheap("crypto.ECPoint", "curve"))
